@@ -276,6 +276,7 @@ func init() {
 			{Name: "prefixes", Run: prefixUnit("fasta", false, 0)},
 			{Name: "edges", Run: edgeUnit("fasta")},
 			{Name: "fieldlens", TShards: 2, Run: lengthUnit("fasta")},
+			{Name: "parallel", Race: true, Run: codecParallel("fasta")},
 		},
 	})
 }
